@@ -1,9 +1,9 @@
 SPECIFICATION Spec
 CONSTANTS
   Threads = {t1, t2, t3}
-  MaxPush = 3
+  MaxPush = 4
   MaxPop = 3
-  MaxUnblock = 1
+  MaxUnblock = 2
   MaxSize = 1
   Void = FALSE
   AllowDestroy = TRUE
